@@ -18,6 +18,11 @@
    525 character probes         L[fl; k; c]                      -> L[ws c; ci_eq k c; dot_ok c]
    526 eval_bracket_access      L[prefix; vmap; literal]         -> option index
    527 query_probably_has_dictionary_variable  L[query; name]    -> bool
+   528 C09 pipeline             L[kind; flag; query; probe; L all_records; opt names]
+                                 kind 0 = CSV iterator (header = first record when the effective flag is on; the WITH
+                                 modifier is the one the model's own parse of the query finds), 1 = list table with
+                                 normalize_column_names, 2 = list table in direct mode, 3 = pandas / sqlite (as 1, no length check)
+                                 -> L[opt header; L records; vres (opt L[initialize; index] of the probe variable); opt modifier]
    res X = L[0; X] | L[1; L[tag; stmt?]] ; vres X = L[0; X] | L[1; tag]. *)
 From RBQL Require Import Base Sx Parser ParserVars.
 Local Open Scope N_scope.
@@ -193,6 +198,33 @@ Definition ep_bracket (x : sx) : sx :=
 Definition ep_prefilter (x : sx) : sx :=
   with2 str_of_sx str_of_sx x (fun q n => sx_of_bool (query_probably_has_dictionary_variable q n)).
 
+Definition ep_c09 (x : sx) : sx :=
+  match x with
+  | L [k; f; q; pv; recs; ns] =>
+      match N_of_sx k, bool_of_sx f, str_of_sx q, str_of_sx pv, list_of_sx strs_of_sx recs, option_of_sx strs_of_sx ns with
+      | Some kind, Some flag, Some query, Some probe, Some all_records, Some names =>
+          let p := parse_query LPy query in
+          match p_actions p with
+          | Err _ => ERR
+          | Ok a =>
+              let modifier := a_with a in
+              let '(hdr, records, src, first_len) :=
+                if N.eqb kind 0 then
+                  let st := effective flag modifier in
+                  (csv_header st all_records, csv_records st all_records, SrcCsv, None)
+                else
+                  (names, all_records, SrcTable (negb (N.eqb kind 2)),
+                   if N.eqb kind 3 then None else option_map (@length str) (hd_error all_records)) in
+              let vm := get_variables_map src (p_clean p) 97 hdr first_len in
+              L [sx_of_option sx_of_strs hdr; sx_of_list sx_of_strs records;
+                 sx_of_vres (fun m => sx_of_option (fun v : vinfo => L [sx_of_bool (fst v); A (snd v)]) (map_get probe m)) vm;
+                 sx_of_option sx_of_str modifier]
+          end
+      | _, _, _, _, _, _ => ERR
+      end
+  | _ => ERR
+  end.
+
 Definition dispatch_parser (code : N) (x : sx) : option sx :=
   match code with
   | 500 => Some (ep_cleanup x)
@@ -214,5 +246,6 @@ Definition dispatch_parser (code : N) (x : sx) : option sx :=
   | 525 => Some (ep_probe x)
   | 526 => Some (ep_bracket x)
   | 527 => Some (ep_prefilter x)
+  | 528 => Some (ep_c09 x)
   | _ => None
   end.
